@@ -1573,6 +1573,141 @@ async fn expand(
     json!({"succ": [out], "counters": counters})
 }
 
+
+// ------------------------------------------------ folder-level id reuse
+
+/// C01 at the `Folder` API, where callers choose secret ids: every
+/// sequence up to the depth over {create(id0, v), create(id0, v') again,
+/// update(id0), delete(id0), create(id1)}; read-your-writes on the live
+/// folder and after a fresh sign-in (model: a write that returns Ok
+/// replaces the value, a refused write changes nothing; ids are unique).
+const FOLDER_OPS: [&str; 5] = ["create0", "create0b", "update0", "delete0", "create1"];
+
+fn folder_seq(mut idx: usize, depth: usize) -> Vec<&'static str> {
+    let mut len = 1;
+    let mut count = FOLDER_OPS.len();
+    while idx >= count {
+        idx -= count;
+        len += 1;
+        count *= FOLDER_OPS.len();
+    }
+    let _ = depth;
+    let mut v = vec![];
+    for _ in 0..len {
+        v.push(FOLDER_OPS[idx % FOLDER_OPS.len()]);
+        idx /= FOLDER_OPS.len();
+    }
+    v
+}
+
+fn folder_seq_total(depth: usize) -> usize {
+    let mut t = 0;
+    let mut c = 1;
+    for _ in 0..depth {
+        c *= FOLDER_OPS.len();
+        t += c;
+    }
+    t
+}
+
+async fn folder_api_case(init: &StateItem, seq: &[&str], work: &Path) -> Value {
+    let mut fails: Vec<Value> = vec![];
+    let b = init.backend;
+    let r: Result<()> = async {
+        let _ = std::fs::remove_dir_all(work);
+        fsutil::copy_dir(Path::new(&init.dir), work)?;
+        clock::install();
+        clock::set_tick(0, 50_000);
+        let account_id: sos_core::AccountId = init.account_id.parse().unwrap();
+        let dev = Dev::open(work, b, account_id, pw(0)).await?;
+        let fid = vid(&init.model.folders[0].id);
+        let mut folder = dev.account.folder(&fid).await?;
+        let id0 = SecretId::from_bytes([0x10; 16]);
+        let id1 = SecretId::from_bytes([0x11; 16]);
+        // model: id -> (meta, value)
+        let mut model: BTreeMap<String, (Value, Value)> = BTreeMap::new();
+        for s in init.model.secrets.iter().filter(|s| s.alive && s.folder == 0) {
+            model.insert(s.id.clone(), (s.meta.clone(), s.value.clone()));
+        }
+        let names: Vec<String> = seq.iter().map(|s| s.to_string()).collect();
+        for (i, op) in seq.iter().enumerate() {
+            let (id, variant, marker) = match *op {
+                "create0" => (id0, 0u8, "fa0"),
+                "create0b" => (id0, 1u8, "fa0b"),
+                "update0" => (id0, 1u8, "fa0u"),
+                "create1" => (id1, 0u8, "fa1"),
+                _ => (id0, 0u8, ""),
+            };
+            let (meta, secret) = gen::secret("note", variant, marker);
+            let (mv, sv) = (gen::meta_view(&meta), gen::secret_view(&secret));
+            match *op {
+                "create0" | "create0b" | "create1" => {
+                    let row = sos_vault::secret::SecretRow::new(id, meta, secret);
+                    if folder.create_secret(&row).await.is_ok() {
+                        model.insert(id.to_string(), (mv, sv));
+                    }
+                }
+                "update0" => {
+                    if let Ok(Some(_)) = folder.update_secret(&id, meta, secret).await {
+                        model.insert(id.to_string(), (mv, sv));
+                    }
+                }
+                "delete0" => {
+                    if let Ok(Some(_)) = folder.delete_secret(&id).await {
+                        model.remove(&id.to_string());
+                    }
+                }
+                _ => {}
+            }
+            // live read-your-writes through the same folder
+            for (sid_s, (m, v)) in &model {
+                match folder.read_secret(&sid(sid_s)).await {
+                    Ok(Some((gm, gs, _))) => {
+                        if gen::meta_view(&gm) != *m || gen::secret_view(&gs) != *v {
+                            fails.push(json!({"sig": format!("folder_api:{}:live_read_returns_older_write:{}", op, b.name()), "what": "reading a secret through the folder does not return the data of the last successful write", "detail": {"seq": names, "step": i}}));
+                        }
+                    }
+                    _ => fails.push(json!({"sig": format!("folder_api:{}:live_read_missing:{}", op, b.name()), "what": "a live secret cannot be read through the folder", "detail": {"seq": names, "step": i}})),
+                }
+            }
+        }
+        dev.close().await;
+        // fresh sign-in: same answers from persisted storage
+        let mut d2 = Dev::open(work, b, account_id, pw(0)).await.map_err(|e| anyhow!("reload: {}", e))?;
+        let ids = d2.account.list_secret_ids(&fid).await?;
+        let mut listed: Vec<String> = ids.iter().map(|i| i.to_string()).collect();
+        let n_listed = listed.len();
+        listed.sort();
+        listed.dedup();
+        let last = seq.last().copied().unwrap_or("");
+        if listed.len() != n_listed {
+            fails.push(json!({"sig": format!("folder_api:{}:duplicate_id_after_reload:{}", last, b.name()), "what": "after a fresh sign-in the folder lists the same secret id more than once", "detail": {"seq": names}}));
+        }
+        let want: Vec<String> = model.keys().cloned().collect();
+        if listed != want {
+            fails.push(json!({"sig": format!("folder_api:{}:listing_differs_after_reload:{}", last, b.name()), "what": "after a fresh sign-in the folder does not list exactly the live ids", "detail": {"seq": names, "listed": listed.len(), "want": want.len()}}));
+        }
+        for (sid_s, (m, v)) in &model {
+            match d2.account.read_secret(&sid(sid_s), Some(&fid)).await {
+                Ok((row, _)) => {
+                    if gen::meta_view(row.meta()) != *m || gen::secret_view(row.secret()) != *v {
+                        fails.push(json!({"sig": format!("folder_api:{}:reload_returns_other_write:{}", last, b.name()), "what": "after a fresh sign-in a secret does not carry the data of the last successful write", "detail": {"seq": names}}));
+                    }
+                }
+                Err(e) => fails.push(json!({"sig": format!("folder_api:{}:reload_read_failed:{}", last, b.name()), "what": format!("after a fresh sign-in a live secret cannot be read: {}", e), "detail": {"seq": names}})),
+            }
+        }
+        d2.close().await;
+        Ok(())
+    }
+    .await;
+    if let Err(e) = r {
+        let msg: String = e.to_string().chars().filter(|c| !c.is_ascii_digit()).take(60).collect();
+        fails.push(json!({"sig": format!("folder_api:error:{}:{}", msg, b.name()), "what": format!("{}", e), "detail": {"seq": seq}}));
+    }
+    json!({"fails": fails})
+}
+
 fn rt() -> tokio::runtime::Runtime {
     tokio::runtime::Builder::new_multi_thread()
         .worker_threads(2)
@@ -1660,6 +1795,19 @@ fn main() {
         p.session = m != "snapshot";
     }
 
+    if pool::worker_stage().as_deref() == Some("folderapi") {
+        let input = std::env::var("VKIT_INPUT").expect("VKIT_INPUT");
+        let inits: Vec<StateItem> = serde_json::from_slice(&std::fs::read(&input).unwrap()).unwrap();
+        let depth: usize = std::env::var("VKIT_FDEPTH").unwrap().parse().unwrap();
+        let total = folder_seq_total(depth);
+        let wd2 = fsutil::WorkDir::new("hist-fa");
+        let rt = rt();
+        pool::worker_loop(|idx| {
+            let init = &inits[idx / total];
+            let seq = folder_seq(idx % total, depth);
+            rt.block_on(folder_api_case(init, &seq, &wd2.path().join("w")))
+        });
+    }
     if pool::worker_stage().is_some() {
         let input = std::env::var("VKIT_INPUT").expect("VKIT_INPUT");
         let (init, frontier, items): (StateItem, Vec<StateItem>, Vec<WorkItem>) =
@@ -1713,6 +1861,7 @@ fn main() {
     let mut op_kinds: BTreeMap<String, u64> = BTreeMap::new();
     // history -> canonical key, per backend (differential)
     let mut hist_canon: Vec<HashMap<String, String>> = vec![];
+    let mut folder_api_inits: Vec<StateItem> = vec![];
     for b in &backends {
         let cfg_dir = wd.path().join(b.name());
         std::fs::create_dir_all(&cfg_dir).unwrap();
@@ -1850,9 +1999,32 @@ fn main() {
             levels.push(json!({"depth": d + 1, "expanded": frontier.len(), "new_states": next.len()}));
             frontier = next;
         }
+        folder_api_inits.push(init_item.clone());
         states_total += seen.len();
         per_cfg.push(json!({"backend": b.name(), "states": seen.len(), "levels": levels, "unexpanded_at_bound": frontier.len()}));
         hist_canon.push(hc);
+    }
+    let mut folder_api_cases = 0u64;
+    if prop == "C01" && !folder_api_inits.is_empty() {
+        let fdepth = if args.tier == Tier::Quick { 3 } else { 4 };
+        let input = wd.path().join("folderapi-inits.json");
+        std::fs::write(&input, serde_json::to_vec(&folder_api_inits).unwrap()).unwrap();
+        let mut opts = PoolOpts::default();
+        opts.env.push(("VKIT_INPUT".into(), input.to_string_lossy().to_string()));
+        opts.env.push(("VKIT_FDEPTH".into(), fdepth.to_string()));
+        let total = folder_seq_total(fdepth) * folder_api_inits.len();
+        for (i, r) in pool::run_stage("folderapi", total, &opts).into_iter().enumerate() {
+            match r {
+                pool::ItemResult::Crashed(w) => run.machinery(format!("folder api case {}: {}", i, w)),
+                pool::ItemResult::Done(v) => {
+                    folder_api_cases += 1;
+                    transitions += 1;
+                    for f in v["fails"].as_array().unwrap() {
+                        run.fail(f["sig"].as_str().unwrap(), f["what"].as_str().unwrap(), json!({"engine":"hist","stage":"folder_api","detail": f["detail"]}));
+                    }
+                }
+            }
+        }
     }
     // differential: same history => same canonical state on both backends
     let mut diff_checked = 0u64;
@@ -1915,6 +2087,7 @@ fn main() {
     cov.insert("samples".into(), json!(samples));
     cov.insert("exhaustive".into(), json!(true));
     cov.insert("profile".into(), json!(p));
+    cov.insert("folder_api_id_reuse_sequences".into(), json!(folder_api_cases));
     cov.insert("merge_worlds_(sync_engine_by_product)".into(), merge_worlds);
     cov.insert("configurations".into(), json!(per_cfg));
     cov.insert("operations_by_kind".into(), json!(op_kinds));
